@@ -54,4 +54,19 @@ def nonRoutable6 (x : Nat) : Prop :=
 
 instance (x : Nat) : Decidable (nonRoutable6 x) := by unfold nonRoutable6; infer_instance
 
+/-! ### host names
+
+Only two kinds of host text can be judged at all: literal addresses (above) and the one name whose meaning is fixed
+by standard, `localhost` (RFC 6761 §6.3: it names the loopback address).  Host names compare case-insensitively
+(RFC 4343: ASCII letters `A`–`Z`, codes 65–90, equal `a`–`z`), so `LocalHost`, `LOCALHOST`, … are loopback too.
+Any other name (`node.example`, `host.local`, `x.internal`, `localhost.` with a trailing dot, `a.localhost`) needs a
+resolver to be judged; the property cannot demand anything of them and the code treats them as ordinary names. -/
+
+def asciiLower (c : Char) : Char := if 65 ≤ c.toNat ∧ c.toNat ≤ 90 then Char.ofNat (c.toNat + 32) else c
+
+/-- `s` spells `localhost` in some mixture of upper and lower case -/
+def loopbackName (s : List Char) : Prop := s.map asciiLower = "localhost".toList
+
+instance (s : List Char) : Decidable (loopbackName s) := by unfold loopbackName; infer_instance
+
 end EphVerif.AdvSpec
